@@ -386,7 +386,29 @@ class LiveSearch:
                 consumed = [(i, m) for i, m in ((i, self.moved(a, st)) for i, a in enumerate(t["args"])) if m is not None]
                 for i, m in consumed:
                     lvl = st.pop(m)
-                    if n in self.prog.bodies and not self.b.local_ty(m).startswith("core::option::Option<"):
+                    if n in self.prog.bodies and self.b.local_ty(m).startswith("core::option::Option<") and self.depth < 2:
+                        # an Option<Search> handed over by value: analyse the callee with its parameter as the holder
+                        cb = self.prog.body(n)
+                        an = LiveSearch(self.prog, cb, pseudo=(i + 1,), depth=self.depth + 1, summaries=self.sums)
+                        an.solve({i + 1: lvl})
+                        bad = [k for k in an.events if k[0] in ("dropped", "escapes", "second_search", "overwritten")]
+                        if bad and record:
+                            self.ev(bad[0][0], bb, "%s (inside %s)" % (bad[0][1], n.split("::")[-1]), t.get("line"))
+                        ret_lvl, det = 0, False
+                        for xb in cfg.exits(cb):
+                            if xb in an.inn:
+                                o = an.out_state(xb)
+                                ret_lvl = max(ret_lvl, o.get(0, 0), o.get(i + 1, 0))
+                                det = det or DETACHED in o
+                        if ret_lvl and d["l"] in tracked:
+                            st[d["l"]] = max(st.get(d["l"], 0), ret_lvl)
+                        elif ret_lvl:
+                            if ret_lvl == LIVE and record:
+                                self.ev("escapes", bb, "%s -> %s" % (self.name(m), n.split("::")[-1]), t.get("line"))
+                            st[DETACHED] = 1
+                        if det:
+                            st[DETACHED] = 1
+                    elif n in self.prog.bodies and not self.b.local_ty(m).startswith("core::option::Option<"):
                         sm = self.sums.of(n, i + 1)
                         if not sm["stops"] and lvl == LIVE and record:
                             self.ev("escapes", bb, "%s -> %s" % (self.name(m), n.split("::")[-1]), t.get("line"))
